@@ -120,6 +120,10 @@ theorem default_true_anti :
 /-- non-vacuity (test): the default list has 31 configs, 32 covering pairs and 6 roots -/
 example : configs.length = 31 := by decide
 example : (coverPairs configs.length defaultCfg.sub).length = 32 ∧
-    minimalIdx configs.length defaultCfg.sub = [0, 13, 14, 18, 19, 20] := by decide +kernel
+    (minimalIdx configs.length defaultCfg.sub).length = 6 ∧
+    ((minimalIdx configs.length defaultCfg.sub).all fun i =>
+      match configs[i]? with
+      | some c => ["carbonyl", "ether", "thioether", "amine", "nitrile", "nitrose"].contains c.name
+      | none => false) = true := by decide +kernel
 
 end C07
